@@ -39,7 +39,8 @@ def run(prog, chk):
     p1 = info['p1sym']
     # R02.1
     acc = info['acc']
-    ok = acc.get((1,)) == sp.Abs(KP.A[1]) ** 2 and acc.get((0,), 0) == 0 and info['p1_init_zero'] and info['bit_is_1_shl_q']
+    # what one pair of cells adds to p1 over all its visits (which visit adds it does not matter for the sum)
+    ok = sp.simplify(acc.get((1,), 0) + acc.get((0,), 0) - sp.Abs(KP.A[1]) ** 2) == 0 and info['p1_init_zero'] and info['bit_is_1_shl_q']
     chk.ob('R02.1', m, info['loop1_ln'], ok, 'accumulation per pair: bit clear adds %s, bit set adds %s; p1 starts at 0: %s; bit = 1<<q: %s' % (
         acc.get((0,), 0), acc.get((1,)), info['p1_init_zero'], info['bit_is_1_shl_q']), key='p1-accumulation')
     # R02.2
